@@ -165,6 +165,12 @@ def main():
             exact = mo["F64"] == mo["Xq"]
             stats["exact_safe"] += exact
             d = first_diff(r["obs"], mo["F64"], p["ops"], getattr(mod, "EMIT", None), getattr(mod, "MODE", "base"))
+            if d is not None and getattr(mod, "TIE_EXACT_ONLY", False) and not (
+                    mod.tie_applicable(p, exact) if hasattr(mod, "tie_applicable") else exact):
+                # vectorised kernels sum in another order than the model: bit-for-bit comparison
+                # only where every operation is exact; the oracle (with a tolerance) still runs
+                d = None
+                stats["tie_skipped_inexact"] = stats.get("tie_skipped_inexact", 0) + 1
             agree = d is None
             if d is not None:
                 stats["tie_mismatch"] += 1
@@ -180,7 +186,7 @@ def main():
                 def bad(q):
                     rr = run_impl(q, getattr(mod, "Machine", None))
                     return rr["crash"] is None and bool(mod.oracle(q, rr, exact))
-                sp = shrink(p, bad)
+                sp = p if getattr(mod, "NO_SHRINK", False) else shrink(p, bad)
                 violations.append((common.write_replay(pid, "oracle%d" % i, dict(
                     sp, property=pid, failures=fails, tie_agrees=agree, exact_safe=exact)), "oracle"))
         if len(samples) < 3:
@@ -225,6 +231,7 @@ def main():
             "programs": stats["programs"], "traces_validated_against_impl":
                 stats["programs"] - stats["tie_mismatch"] - stats["impl_crash"],
             "exact_safe": stats["exact_safe"], "tie_mismatch": stats["tie_mismatch"],
+            "tie_skipped_inexact": stats.get("tie_skipped_inexact", 0),
             "oracle_fail": stats["oracle_fail"], "corpus_replayed": corpus_n,
             "ops_by_kind": stats["ops_by_kind"], "outcomes": stats["outcomes"],
             "exception_classes": stats["exc_classes"],
